@@ -152,6 +152,25 @@ def operands(rng, ring, p, n):
     return out
 
 
+def near_multiple_pairs(rng, ring, p, n):
+    """pairs (a, b) of canonical elements, a a large unit, with a*b = s (mod p) for a small |s| (incl. 0 < |s| <= 3)"""
+    out = []
+    if p < 5:
+        return out
+    for i in range(n):
+        for _ in range(50):
+            a = rng.range(p // 2, p - 1)
+            if math.gcd(a, p) == 1:
+                break
+        else:
+            continue
+        s0 = rng.choice([1, 2, 3, rng.range(1, max(1, p // 8)), rng.range(1, max(1, p // 1000 + 1))])
+        sg = 1 if rng.chance(1, 3) else -1          # mostly just BELOW a multiple (over-estimated quotient)
+        b = (sg * s0 * pow(a, -1, p)) % p
+        out.append((canon(ring, p, a), canon(ring, p, b), sg * s0))
+    return out
+
+
 def unit_operand(rng, ring, p):
     lo, hi = elem_range(ring, p)
     for _ in range(200):
@@ -220,6 +239,19 @@ def gen_cases(rng, ring, p, per, cases):
     for op in ("mul", "mulin"):
         for t in ([hi, hi], [lo, lo], [lo, hi]):
             cases.append((ring, p, op, list(t)))
+    # products just below / just above / exactly on a multiple of p with a large quotient: the boundary of every
+    # quotient estimate (balanced int, extended FMA, Barrett) and of the single correction step
+    near = near_multiple_pairs(rng, ring, p, 3 if per <= 2 else 8)
+    for (x, y, sgn_s) in near:
+        for op in ("mul", "mulin"):
+            cases.append((ring, p, op, [x, y]))
+        cases.append((ring, p, "axpy", [x, y, canon(ring, p, -sgn_s)]))       # a*b + c exactly a multiple of p
+        cases.append((ring, p, "axmyin", [x, y, canon(ring, p, sgn_s)]))
+        cases.append((ring, p, "maxpy", [x, y, canon(ring, p, sgn_s)]))
+        if ring in INT_RINGS:
+            for op in ("mulpp", "mulpb", "mulpb2"):
+                if precomp_ok(ring, p, op):
+                    cases.append((ring, p, op, [x % p, y % p]))
     for op in OPS1:
         for x in [0, 1, hi, lo] + operands(rng, ring, p, 2):
             if lo <= x <= hi:
